@@ -130,6 +130,16 @@ func Run(c *core.Ctx) int {
 		os.MkdirAll(dirs[i], 0o755)
 		core.WriteFiles(dirs[i], g.Files)
 	})
+	// the fixed sentinel: the documentation's own examples, with the expected outcome written down
+	// by hand (sentinels/C18/docexamples/EXPECTED.txt); it validates the oracle, then takes part
+	// in every observation like a generated program.
+	sent, sentDir, err := s.loadSentinel(gopath)
+	if err != nil {
+		fmt.Printf("MACHINERY-FAILURE property=C18 sentinel: %v\n", err)
+		return 2
+	}
+	pkgs = append(pkgs, sent)
+	dirs = append(dirs, sentDir)
 	nfiles, nexpr := 0, 0
 	for _, g := range pkgs {
 		for _, d := range g.Dirs {
@@ -188,10 +198,8 @@ func Run(c *core.Ctx) int {
 		nch = m
 	}
 	chunks := make([][]e2eJob, nch)
-	for k, j := range jobs {
-		// keep the tag sets of one package together
-		chunks[j.pi%nch] = append(chunks[j.pi%nch], j)
-		_ = k
+	for _, j := range jobs {
+		chunks[j.pi%nch] = append(chunks[j.pi%nch], j) // the tag sets of one package stay together
 	}
 	c.Parallel(nch, func(k int) { s.e2eBatch(pkgs, dirs, chunks[k], k) })
 	phase("e2e-gopath-batch")
@@ -204,9 +212,19 @@ func Run(c *core.Ctx) int {
 		i := (k*53 + 11) % npk
 		jobs2 = append(jobs2, e2eJob{pi: i, ti: (k + 2) % len(pkgs[i].TagSets), mode: "module"})
 	}
+	// starved packages in module mode too: there the error text comes from the go command
+	nstarved := 0
+	for i, g := range pkgs {
+		if g.Starved && nstarved < c.N(12, 100) {
+			nstarved++
+			jobs2 = append(jobs2, e2eJob{pi: i, ti: 0, mode: "module"})
+		}
+	}
+	jobs2 = append(jobs2, e2eJob{pi: npk, ti: 0, mode: "module"}, e2eJob{pi: npk, ti: 1, mode: "module"})
 	ncli := c.N(8, 60)
 	cli := <-cliReady
 	if cli != "" {
+		jobs2 = append(jobs2, e2eJob{pi: npk, ti: 1, mode: "cli"})
 		for k := 0; k < ncli && k < npk; k++ {
 			i := (k*37 + 3) % npk
 			jobs2 = append(jobs2, e2eJob{pi: i, ti: (k + 1) % len(pkgs[i].TagSets), mode: "cli"})
@@ -254,14 +272,84 @@ func Run(c *core.Ctx) int {
 		floor = 1 << 30
 	}
 	return c.Finish("exploration", s.decisions, len(s.classes), floor,
-		"generated packages (12–40 files, optional dependency package) whose files register their names from init(); random //go:build expressions of depth ≤4 over {js, ecmascript, gc, gopherjs, netgo, purego, math_big_pure_go, go1.N, cgo, other GOOS/GOARCH, unix, unknown, user tags}, file-name suffix combinations, cgo files, .inc.js files, _test/hidden files, legacy +build lines; compiled with random -tags sets (in-process session, and the CLI for a few) and run under node: registered set == prediction of an independent evaluator of the documented rules; all-excluded packages must fail with the 'exclude all Go files' error. Same directories through build.NewBuildContext(...).Import (GoFiles/TestGoFiles/XTestGoFiles/JSFiles/CgoFiles), plus every package directory of GOROOT/src predicted as js/wasm with release tags ≤ go1.20. evaluations = (file, environment) selection decisions compared with an observation; distinct_nontrivial = distinct (expression shape over tag classes, file-name suffix, kind, predicted outcome) classes among generated files",
-		map[string]any{},
+		"generated packages (12–40 files, optional dependency package) whose files register their names from init(); random //go:build expressions of depth ≤4 over {js, ecmascript, gc, gopherjs, netgo, purego, math_big_pure_go, go1.N, cgo, other GOOS/GOARCH, unix, unknown, user tags}, file-name suffix combinations, cgo files, .inc.js files, _test/hidden files, legacy +build lines; compiled with random -tags sets (every pair through a fresh in-process build.Session in GOPATH mode, a subset in module mode through `vp compile`, a few through the real CLI, some with the deprecated GOOS=linux override) and run under node: registered set == prediction of an independent evaluator of the documented rules; all-excluded packages must fail with the 'build constraints exclude all Go files' (go command, module mode) / 'no buildable Go source files' (go/build, GOPATH mode) error. A fixed sentinel package holds the examples of doc/compatibility.md with hand-written expectations. Same directories through build.NewBuildContext(...).Import (GoFiles/TestGoFiles/XTestGoFiles/JSFiles/CgoFiles), plus every package directory of GOROOT/src predicted as js/wasm with release tags ≤ go1.20. evaluations = (file, environment) selection decisions compared with an observation; distinct_nontrivial = distinct (expression shape over tag classes, file-name suffix, kind, predicted outcome) classes among generated files",
+		map[string]any{"suffix_vocabulary": suffixes[6:], "user_tag_pool": userPool, "builtin_tags_also_passed_as_user_tags": flippable},
 		[]string{
 			"go/build/constraint parses and evaluates //go:build syntax correctly (cross-checked against a direct evaluation of the generator's own tree)",
 			"known GOOS/GOARCH lists are those of the go1.23 reference toolchain",
 			"GOROOT is go1.23 with GOPHERJS_SKIP_VERSION_CHECK=1; release tags must still stop at go1.20",
 			"standard-library GoFiles of runtime, runtime/pprof, sync, syscall/js are altered by documented post-load tweaks and are not compared (counted as inconclusive)",
 		})
+}
+
+// loadSentinel copies sentinels/C18/docexamples into the workspace and checks the oracle against
+// the hand-written expectation.
+func (s *state) loadSentinel(gopath string) (*GenPkg, string, error) {
+	src := filepath.Join(s.c.Verif, "sentinels", "C18", "docexamples")
+	ents, err := os.ReadDir(src)
+	if err != nil {
+		return nil, "", err
+	}
+	g := &GenPkg{Name: "c18sentinel", Files: map[string]string{}, TagSets: [][]string{nil, {"alpha"}}}
+	d := &GenDir{Pkg: "main"}
+	expected := map[string]string{}
+	for _, e := range ents {
+		b, err := os.ReadFile(filepath.Join(src, e.Name()))
+		if err != nil {
+			return nil, "", err
+		}
+		if e.Name() == "EXPECTED.txt" {
+			for _, l := range strings.Split(string(b), "\n") {
+				if l = strings.TrimSpace(l); l == "" || strings.HasPrefix(l, "#") {
+					continue
+				}
+				k, v, _ := strings.Cut(l, ":")
+				expected[strings.TrimSpace(k)] = strings.TrimSpace(v)
+			}
+			continue
+		}
+		g.Files[e.Name()] = string(b)
+		if e.Name() == "go.mod" {
+			continue
+		}
+		f := &GenFile{Name: e.Name(), Kind: "go", Shape: "sentinel", Hidden: strings.HasPrefix(e.Name(), "_")}
+		switch {
+		case e.Name() == "main.go":
+			f.Kind = "anchor"
+		case strings.HasSuffix(e.Name(), ".inc.js"):
+			f.Kind = "incjs"
+		case strings.HasSuffix(e.Name(), "_test.go"):
+			f.Kind = "test"
+		}
+		h := ParseHeader(b)
+		f.Expr = strings.TrimPrefix(h.GoBuild, "//go:build ")
+		d.Files = append(d.Files, f)
+	}
+	g.Dirs = []*GenDir{d}
+	dir := filepath.Join(gopath, "src", g.Name)
+	os.MkdirAll(dir, 0o755)
+	core.WriteFiles(dir, g.Files)
+	for _, ts := range g.TagSets {
+		k := strings.Join(ts, ",")
+		if k == "" {
+			k = "-"
+		}
+		p, err := UserEnv(ts, "").PredictDir(dir)
+		if err != nil {
+			return nil, "", err
+		}
+		var names []string
+		for _, n := range append(append([]string{}, p.Go...), p.JS...) {
+			if n != "main.go" {
+				names = append(names, n)
+			}
+		}
+		sort.Strings(names)
+		if got := strings.Join(names, ";"); got != expected[k] {
+			return nil, "", fmt.Errorf("the oracle disagrees with the hand-written expectation for tags %q:\n oracle:   %s\n expected: %s", k, got, expected[k])
+		}
+	}
+	return g, dir, nil
 }
 
 func firstLines(s string, n int) string {
@@ -488,6 +576,7 @@ func (s *state) judge(g *GenPkg, dir string, j e2eJob, ok bool, output string, j
 				s.replayFiles(g, map[string]string{"cmd.sh": cmd, "compiler-output.txt": output}))
 		}
 		if mustFailNoGo {
+			c.Count("e2e_all_excluded_error_seen_mode_"+j.mode, 1)
 			s.keep("e2e-all-excluded", key, map[string]any{"error": firstLines(strings.TrimSpace(output), 1)})
 		}
 		return
